@@ -296,7 +296,9 @@ ENTRY_LINES = ['DATA a 0 MD5 d41d8cd98f00b204e9800998ecf8427e',
                'IGNORE distfiles', 'MANIFEST sub/Manifest 1 MD5 00',
                'DIST foo.tar 7 SHA512 ab', 'TIMESTAMP 2020-01-01T00:00:00Z',
                'MISC m 3 MD5 11', 'DATA -dash 0', 'DATA trail 1   ',
-               'EBUILD x-1.ebuild 5 MD5 22']
+               'EBUILD x-1.ebuild 5 MD5 22',
+               # (multi-byte path: characters and bytes differ by 60)
+               'DATA ' + '\u00e9\u6f22' * 20 + ' 3 MD5 44']
 # cleartext lines that are not Manifest entries (gpg dash-escapes some)
 JUNK_LINES = ['- DATA dashed 0', '-----BEGIN PGP SIGNED MESSAGE-----',
               'junk line', '- - DATA twice 0', 'From here',
@@ -327,7 +329,9 @@ def gpg_case(draw):
             'text': draw(st.sampled_from(INJECT)),
         })
     return {'lines': lines, 'muts': muts,
-            'via': draw(st.sampled_from(['file', 'loader', 'sub-loader']))}
+            'via': draw(st.sampled_from(['file', 'loader', 'sub-loader'])),
+            'lopt': draw(st.sampled_from([None, 'default', 'no-sign',
+                                          'sign']))}
 
 
 def strat_gpg(tier):
@@ -455,8 +459,15 @@ def run_gpg(desc):
             elif via == 'loader':
                 # the way the tree loader opens and reads the file
                 from gemato.recursiveloader import ManifestRecursiveLoader
-                ldr = ManifestRecursiveLoader(path, verify_openpgp=True,
-                                              openpgp_env=env)
+                # (verification is the default, whatever the signing
+                # options say)
+                lkw = {None: {'verify_openpgp': True},
+                       'default': {},
+                       'no-sign': {'sign_openpgp': False},
+                       'sign': {'sign_openpgp': True}}[desc.get('lopt')]
+                if desc.get('lopt'):
+                    classes.append('loader-option:' + desc['lopt'])
+                ldr = ManifestRecursiveLoader(path, openpgp_env=env, **lkw)
                 m = ldr.loaded_manifests['Manifest']
             else:
                 with open(path, 'r', encoding='utf8') as f:
